@@ -31,6 +31,8 @@ def _edits_shrink(case):
     return out
 
 
+HOOK_COMMITS = ['ae5437e']
+
 PROPS = {
     'C18': dict(
         monitor=True,
